@@ -3927,3 +3927,41 @@ def inplace_mix(r: R, chk, quals: List[str], rule="INPLACE-MIX", floor: int = 0)
                    func=q, construct="in-place update across the two operands")
     chk.floor(rule, "in-place updates in the curve-curve operators examined", n, floor)
     return n
+
+
+# ---------------------------------------------------------------------------------------------------------
+# WALK-ONCE: a sequence argument is walked by one consumer only, unless it has been materialised first
+def walk_once(r: R, chk, quals: List[str], rule="WALK-ONCE", floor: int = 1):
+    """`list(nodes)` followed by `self.valid(nodes)`: a one-pass iterable (generator, map, iter) is exhausted by the first walk and
+    the second sees nothing — the validity test passes vacuously and nodes outside the interval are inserted.  Until the parameter
+    has been rebound to `tuple(p)` / `list(p)`, at most one call / loop may consume it."""
+    n = 0
+    for q in quals:
+        fi = r.prog.func(q)
+        for p in [p_ for p_ in fi.params if p_ not in ("self", "cls")]:
+            order = []
+            for st in ast.walk(fi.node):
+                if isinstance(st, ast.stmt):
+                    order.append(st)
+            consumers = []
+            rebound_at = None
+            for st in fi.node.body:
+                for x in ast.walk(st):
+                    if isinstance(x, ast.Assign) and any(isinstance(t, ast.Name) and t.id == p for t in x.targets) and isinstance(x.value, ast.Call) and seg(x.value.func) in ("tuple", "list") and x.value.args and isinstance(x.value.args[0], ast.Name) and x.value.args[0].id == p and rebound_at is None:
+                        rebound_at = x
+                if rebound_at is not None:
+                    break
+                for x in ast.walk(st):
+                    if isinstance(x, ast.Call) and seg(x.func) not in ("isinstance", "type", "id", "callable", "hasattr", "float", "int") and any(isinstance(a, ast.Name) and a.id == p for a in list(x.args) + [k.value for k in x.keywords]):
+                        consumers.append(x)
+                    if isinstance(x, (ast.For, ast.comprehension)) and isinstance(x.iter, ast.Name) and x.iter.id == p:
+                        consumers.append(x.iter)
+            if not consumers:
+                continue
+            n += 1
+            ok = len(consumers) <= 1
+            chk.ob(rule, f"{q}: `{p}` is walked by one consumer before it is materialised", ok, loc=f"{fi.module}.py:{getattr(consumers[min(1, len(consumers) - 1)], 'lineno', fi.node.lineno)}",
+                   detail="" if ok else f"{q}: `{p}` is consumed by `{seg(consumers[0], 40)}` and again by `{seg(consumers[1], 40)}` without `{p} = tuple({p})` in between: a one-pass iterable is exhausted by the first, the second sees nothing — a validity test passes vacuously and nodes outside the interval are inserted (the vector comes out with knots beyond its ends)",
+                   func=q, construct=f"{p} walked twice")
+    chk.floor(rule, "sequence parameters of the knot-vector editing functions examined", n, floor)
+    return n
